@@ -158,6 +158,7 @@ fn main() {
             let rr = core::run_plan(*scn, &plan, &env);
             println!("{}", serde_json::to_string(&rr.outcome).unwrap());
         }
+        "c17-show" => c17::show(&args[2]),
         "replay" => {
             if !shim::present() {
                 eprintln!("HARNESS-ERROR: libsimio.so is not preloaded; run through /verif/check");
